@@ -215,6 +215,8 @@ def families(ctx):
             try:
                 tr = X.trace(fn, targs, tk)
                 sk = X.skeleton(tr)
+                if getattr(fam, "skel_filter", None) is not None:       # the family models a projection of the skeleton
+                    sk = fam.skel_filter(sk)
             except Exception as e:                # tracing refused
                 tr, err = None, f"trace: {type(e).__name__}: {e}"
             if tr is not None:
@@ -267,7 +269,7 @@ def families(ctx):
             where.append((chk, i))
     verdict_at = {}
     res = _coq_shards(ctx, ["OV.Torch.Onnx", "OV.Torch.Aten", "OV.Torch.Check", "OV.Torch.Spec2", "OV.Torch.Aten2", "OV.Torch.Check2",
-                           "OV.Torch.Spec3", "OV.Torch.Aten3", "OV.Torch.Upsample", "OV.Torch.Check3"], bodies)
+                           "OV.Torch.Spec3", "OV.Torch.Aten3", "OV.Torch.Upsample", "OV.Torch.IndexModel", "OV.Torch.Misc4", "OV.Torch.Check3"], bodies)
     model_ok = True
     for si, (ok, vals, raw) in enumerate(res):
         if not ok or not vals:
